@@ -146,23 +146,39 @@ def roundStoreBcast (s : State) (m : Msg) : Option State :=
     if hasFlag c.f fFailStoreB then none
     else some { s with acc := s.acc + c.v, accused := if hasFlag c.f fAccuse then s.accused ++ [m.frm] else s.accused }
 
-/-- `verifyMessage` for a message of the current round: `none` = error (caller aborts, sender blamed) -/
-def verifyMessage (s : State) (m : Msg) : Option State :=
-  if !s.reached.contains m.rnd then some s
-  else if (curSpec s).recvB && (lookup s.bc m.rnd m.frm).isNone then some s
-  else if !(curSpec s).recvP then none        -- getRoundMessage: MessageContent() is nil ⇒ unmarshal error
-  else roundStoreP2P s m
+/-- outcome of verifying one message -/
+inductive VRes where
+  | ok (s : State)      -- stored (or nothing to do yet)
+  | bad                 -- decoding / verification / storing failed: the sender is blamed
+  | echo                -- the sender holds another view of the previous round's broadcasts: nobody is blamed
+
+/-- `sameBroadcastView`: the hash of the previous round's broadcasts attached to `m` equals ours -/
+def sameView (s : State) (m : Msg) : Bool :=
+  match bhLookup s.bh (m.rnd - 1) with
+  | none => true
+  | some prev => m.bv.getD [] == prev
+
+/-- `verifyMessage` for a message of the current round -/
+def verifyMessage (s : State) (m : Msg) : VRes :=
+  if !s.reached.contains m.rnd then .ok s
+  else if (curSpec s).recvB && (lookup s.bc m.rnd m.frm).isNone then .ok s
+  else if !sameView s m then .echo
+  else if !(curSpec s).recvP then .bad      -- getRoundMessage: MessageContent() is nil ⇒ unmarshal error
+  else match roundStoreP2P s m with
+    | none => .bad
+    | some s' => .ok s'
 
 /-- `verifyBroadcastMessage` -/
-def verifyBroadcastMessage (s : State) (m : Msg) : Option State :=
-  if !s.reached.contains m.rnd then some s
-  else if !(curSpec s).recvB then none        -- "got broadcast message when none was expected"
+def verifyBroadcastMessage (s : State) (m : Msg) : VRes :=
+  if !s.reached.contains m.rnd then .ok s
+  else if !sameView s m then .echo
+  else if !(curSpec s).recvB then .bad      -- "got broadcast message when none was expected"
   else match roundStoreBcast s m with
-    | none => none
+    | none => .bad
     | some s1 =>
-      if !(curSpec s1).recvP then some s1
+      if !(curSpec s1).recvP then .ok s1
       else match lookup s1.msgs m.rnd m.frm with
-        | none => some s1
+        | none => .ok s1
         | some p => verifyMessage s1 p
 
 /-- honest content value of the scripted protocol: a fixed function of (sender, recipient, round) -/
@@ -255,8 +271,20 @@ def protoFinalize (s : State) : Next :=
     | some nx => .round (s.idx + 1) nx
     | none => .output s.acc
 
+/-- why the replay of the queued messages stopped -/
+inductive Fail where
+  | culprit (c : Bytes)
+  | echo
+  deriving DecidableEq, Repr
+
+def failOf (r : VRes) (frm : Bytes) (st : State) : State × Option Fail :=
+  match r with
+  | .ok st' => (st', none)
+  | .bad => (st, some (.culprit frm))
+  | .echo => (st, some .echo)
+
 /-- one iteration of the loops over the queued messages in `finalize` -/
-def replayStep (sp : RoundSpec) (n : Nat) (acc : State × Option Bytes) (id : Bytes) : State × Option Bytes :=
+def replayStep (sp : RoundSpec) (n : Nat) (acc : State × Option Fail) (id : Bytes) : State × Option Fail :=
   match acc with
   | (st, some c) => (st, some c)
   | (st, none) =>
@@ -264,20 +292,21 @@ def replayStep (sp : RoundSpec) (n : Nat) (acc : State × Option Bytes) (id : By
       if id == st.sc.self then (st, none) else
       match lookup st.bc n id with
       | none => (st, none)
-      | some m => match verifyBroadcastMessage st m with
-        | none => (st, some m.frm)
-        | some st' => (st', none)
+      | some m => failOf (verifyBroadcastMessage st m) m.frm st
     else
       match lookup st.msgs n id with
       | none => (st, none)
-      | some m => match verifyMessage st m with
-        | none => (st, some m.frm)
-        | some st' => (st', none)
+      | some m => failOf (verifyMessage st m) m.frm st
 
 /-- replay of the queued messages on entering a round (Go iterates a map; the model uses id order —
     with a single deviating party the outcome does not depend on it) -/
-def replayQueued (s : State) : State × Option Bytes :=
+def replayQueued (s : State) : State × Option Fail :=
   s.sc.ids.foldl (replayStep (curSpec s) s.cur) (s, none)
+
+/-- `abortVerification` -/
+def errOf : Fail → ErrKind
+  | .culprit c => .msgFail c
+  | .echo => .echoMismatch
 
 /-- the Output / Abort round has number 0 -/
 def enter0 (s : State) : State := { s with reached := s.reached ++ [0], cur := 0 }
@@ -309,7 +338,7 @@ def finalizeStep (H : Bytes → Bytes) (s : State) : Step :=
       let s3 := sendAll s1 (emitFor s1 nx)
       if s3.reached.contains nx.num then .halt s3
       else match replayQueued (enter s3 i nx) with
-        | (s5, some culprit) => .halt (abort s5 (some (.msgFail culprit)))
+        | (s5, some f) => .halt (abort s5 (some (errOf f)))
         | (s5, none) => .more s5
 
 /-- `finalize`, with its tail recursion bounded by fuel (one unit per round entered) -/
@@ -335,8 +364,9 @@ def terminal (s : State) : Bool := s.err.isSome || s.result.isSome
 def acceptStored (H : Bytes → Bytes) (s1 : State) (m : Msg) : State :=
   if s1.cur != m.rnd then s1
   else match (if m.bcast then verifyBroadcastMessage s1 m else verifyMessage s1 m) with
-    | none => abort s1 (some (.msgFail m.frm))
-    | some s2 => finalize H (s2.sc.rounds.length + 1) s2
+    | .bad => abort s1 (some (.msgFail m.frm))
+    | .echo => abort s1 (some .echoMismatch)
+    | .ok s2 => finalize H (s2.sc.rounds.length + 1) s2
 
 /-- `Accept` -/
 def accept (H : Bytes → Bytes) (s : State) (m : Msg) : State :=
